@@ -22,4 +22,24 @@ TEXTS = {
         "level_text": "Exploration: tens of thousands of >70 KB streams per quick run parsed under adversarial read schedules and compared message-by-message with the whole-buffer parse; millions of reader operations checked against a two-variable model.",
         "level_note": "schedules and histories are sampled; the whole-buffer run is anchored to the generator truth for marker-free streams",
     },
+    "C05": {
+        "technique": T + "conservation monitor over unambiguous histories (unique message ids) at the outflow closure of the real detector + final table lookup; hook census as evidence of reach",
+        "level_text": "Exploration: >10^6 generated threshold-aware scenarios per quick run; exactly-once/in-order/unchanged and assignment validity checked for every delivered message; all five release paths and both merge branches are required to be reached (coverage floor).",
+        "level_note": "streams <= 400 messages; the detector's 60 s constants are reached through the generator's threshold sets, not through long streams",
+    },
+    "C06": {
+        "technique": T + "invariant probe at every delivery point (same-thread and cross-thread evmap lookup while the detector is blocked in outflow) under consumer pacing and injected pauses; Miri/TSan shards in thorough",
+        "level_text": "Exploration: millions of delivery points probed per quick run, each through two readers; schedule diversity from pacing classes, pause hooks and free-running reader threads.",
+        "level_note": "trusts evmap's publication contract; interleavings are sampled",
+    },
+    "C07": {
+        "technique": T + "end-of-run consistency monitor: histogram of delivered lifecycle ids vs published table, listing order oracle (resume origin through hook accessor)",
+        "level_text": "Exploration: >10^6 scenarios per quick run incl. confirm-then-merge patterns, pre-populated tables and 20-100 lifecycle listings with crossing resume chains.",
+        "level_note": "listing oracle uses the hook accessor verif_resume_origin(); binary-level listing (`adlt convert`) is exercised by C14",
+    },
+    "C08": {
+        "technique": T + "ground-truth oracle (generator knows boot, delay, timestamps) over lifecycle ids of delivered messages and the final table",
+        "level_text": "Exploration: >10^6 clean traces per quick run compared exactly (ids, start, end, counts); the input class where the heuristic cannot separate boots is generated on purpose, evaluated and reported as known finding.",
+        "level_note": "ground truth comes from the generator; exact arithmetic because all times are multiples of 0.1 ms",
+    },
 }
